@@ -187,8 +187,20 @@ pub fn mval(t: &MType) -> BoxedStrategy<MVal> {
             Nat::BigInt => i64s().prop_map(MVal::BigInt).boxed(),
             Nat::Timestamp => i64s().prop_map(MVal::Timestamp).boxed(),
             Nat::Inet => prop_oneof![
-                proptest::collection::vec(any::<u8>(), 4..=4),
-                proptest::collection::vec(any::<u8>(), 16..=16)
+                3 => proptest::collection::vec(any::<u8>(), 4..=4),
+                3 => proptest::collection::vec(any::<u8>(), 16..=16),
+                // IPv6 forms that embed an IPv4 address or are otherwise special
+                2 => (proptest::collection::vec(any::<u8>(), 4..=4), 0u8..5).prop_map(|(v4, form)| {
+                    let mut b = vec![0u8; 16];
+                    match form {
+                        0 => { b[10] = 0xff; b[11] = 0xff; b[12..].copy_from_slice(&v4); }   // ::ffff:a.b.c.d (v4-mapped)
+                        1 => { b[12..].copy_from_slice(&v4); }                               // ::a.b.c.d (v4-compatible)
+                        2 => { b[15] = 1; }                                                  // ::1
+                        3 => { b[0] = 0x20; b[1] = 0x02; b[2..6].copy_from_slice(&v4); }     // 6to4
+                        _ => {}                                                              // ::
+                    }
+                    b
+                }),
             ]
             .prop_map(MVal::Inet)
             .boxed(),
